@@ -125,7 +125,7 @@ def ops_for(t: M.Tbl, r, reduced=False):
             ops += [['feats'], ['label']]
             ops += [['feats_k', kk] for kk in (fk[-1:] if reduced else fk)]
             if not reduced: ops += [['feats_len'], ['feats_keys'], ['feats_eq'], ['tipe'], ['labeled']]
-    if t.arff and len(t.rows) >= 2: ops += [['other']]
+    if len(t.rows) >= 2: ops += [['other']]
     return ops
 
 
@@ -209,9 +209,13 @@ def access(t: M.Tbl, r, rows, op):
     if k == 'labeled':
         f, l, tp = row.labeled
         return [list(f) if dense else _sorted_items(f.items()), l, tp]
-    if k == 'other':
+    if k == 'other':                      # read the neighbouring row in every whole-row way (shared state between rows)
         o = rows[(r + 1) % len(rows)]
-        return list(o) if dense else _sorted_items(o.items())
+        if dense:
+            len(o)
+            return list(o)
+        len(o); list(o.keys())
+        return _sorted_items(o.items())
     raise ValueError(op)
 
 
@@ -231,7 +235,7 @@ FAMILY = {'i': 'row[position]', 'h': 'row[header name]', 'k': 'row[key]', 'list'
 STAGE_CLASS = {'head': 'Head', 'headmap': 'Head', 'shead': 'Head', 'enc': 'Encode', 'drop': 'Drop', 'label': 'Label', 'cat': 'EncodeCat'}
 SRC_CLASS = {'dl': 'dense lists', 'dc': 'dense lists', 'sk': 'sparse dicts', 'si': 'sparse dicts', 'sc': 'sparse dicts',
              'ad': 'lazy ARFF dense', 'as': 'lazy ARFF sparse', 'aq': 'lazy ARFF dense'}
-SIMPLER_SRC = {'dc': ['dl'], 'aq': ['ad'], 'si': ['sk'], 'sc': ['sk'], 'sk': ['si']}
+SIMPLER_SRC = {'dc': ['dl'], 'aq': ['ad'], 'si': ['sk'], 'sc': ['sk'], 'as': ['sk']}
 
 
 def chain_text(src, stages):
@@ -277,7 +281,7 @@ class C13(Check):
             'predicate by index / by name / missing, LabelRows by index / by name with c,r,m, EncodeCatRows onehot / '
             'onehot_tuple / string) x every output row, simplest first; inside a case EVERY access history of length <=2 over the '
             'full access alphabet of that row (every position, every header name / key, list, len, ==, !=, copy, items, keys, '
-            'iter, feats (list, every position / key, len, keys, ==), label, tipe, labeled, and for ARFF rows reading the '
+            'iter, feats (list, every position / key, len, keys, ==), label, tipe, labeled, and reading the '
             'neighbouring row) and every history of length 3 over one representative access per kind is executed on a fresh build of '
             'the real pipeline and every answer is compared with the eager model.  A case is non-trivial when the row object is a '
             'lazy view (not a list/dict) or an EncodeCatRows stage rewrote it')
@@ -381,13 +385,19 @@ class C13(Check):
         # greedy minimisation of the pipeline: drop stages (then try a simpler source) while the same access with the
         # same failure mode is still observed on some output row
         cur_r, cur_h = r, hist
-        changed = True
-        while changed and stages:
-            changed = False
-            for i in range(len(stages)):
+        while stages:
+            step = None
+            for i in range(len(stages)):          # (1) the very same access fails the same way without stage i
                 hit = self._reproduces(src, stages[:i] + stages[i + 1:], cur_r, cur_h, op, mode)
-                if hit:
-                    stages = stages[:i] + stages[i + 1:]; cur_r, got, want = hit; changed = True; break
+                if hit: step = (i, (hit[0], cur_h, op, mode, hit[1], hit[2])); break
+            if step is None:
+                for i in range(len(stages)):      # (2) the pipeline without stage i already fails on a single access: blame that one
+                    f = self._any_failure(src, stages[:i] + stages[i + 1:])
+                    if f: step = (i, f); break
+            if step is None: break
+            i, (cur_r, cur_h, op, mode, got, want) = step
+            stages = stages[:i] + stages[i + 1:]
+        fam = FAMILY[op[0]]
         for alt in SIMPLER_SRC.get(src, []):
             hit = self._reproduces(alt, stages, cur_r, cur_h, op, mode)
             if hit:
@@ -399,6 +409,22 @@ class C13(Check):
                f'{chain_text(src, stages)}: building the pipeline: {mode}: got {got!r}, eager table has {want!r}'
         wit = {'src': src, 'stages': stages, 'row': cur_r, 'hist': cur_h}
         acc.violation(key, what, wit, order=(len(stages), len(cur_h), acc._cur[0] if acc._cur else 0, hi))
+
+    @staticmethod
+    def _any_failure(src, stages):
+        """-> (row, hist, op, mode, got, want) of the first failing single access of the pipeline (or of its build), else None."""
+        try:
+            plan = Plan(src, stages)
+        except Exception:   # noqa  (outside the precondition table)
+            return None
+        t = plan.final
+        fails, _ = run_history(plan, None, [])
+        if fails: return (None, [], fails[0][1], fails[0][2], fails[0][3], fails[0][4])
+        for rr in range(len(t.rows)):
+            for o in ops_for(t, rr):
+                fails, _ = run_history(plan, rr, [o])
+                if fails: return (rr, [o], o, fails[0][2], fails[0][3], fails[0][4])
+        return None
 
     @staticmethod
     def _reproduces(src, stages, r, hist, op, mode):
